@@ -173,6 +173,14 @@ class HistGen:
                 if rng.random() < 0.3 and fs:
                     fs = fs + [fs[0]]
                 cand = fs
+            # stay inside the contract of addSimplex: faces that would be accepted must be the facets of one simplex
+            objs = [self.ex.name(x) for x in cand]
+            if len(set(cand)) == len(cand) and len(cand) >= 3 and all(o in c for o in objs):
+                orders = {base.orderOf(c, o) for o in objs}
+                if orders == {len(cand) - 2}:
+                    pts_ = set().union(*[base.basisOf(c, o) for o in objs])
+                    if len(pts_) != len(cand):
+                        return None
             id = '-' if rng.random() < 0.4 else (rng.choice(names) if bad and names and rng.random() < 0.5 else self.fresh_tok())
             return self.do('add %s %s [%s] -' % (h, id, ','.join(cand)))
         if kind == 'addb':
